@@ -3,12 +3,12 @@
    ReConnect, selector picks, the moment the reinstating goroutine runs and registry answers are label data).
    "run init ls = Some s" / "reachable s": s is the state after ANY label sequence ls the machine accepts.
    History vocabulary (Failover.v): fails_since ai ls = failed calls on adapter ai since it was created / last
-   reinstated; streak ai ls = failed calls in a row; clock ls = now; last_ok ai ls = time of the last answered call.
+   reinstated; streak ai ls = failed calls in a row; clock ls = now; last_ok ai ls = time of the last answered call (or one-way call handed to the transport).
    Thresholds are the regenerated constants of Gen/Consts.v (2, 5, 5 s, 30 s appear literally below; a changed
    constant breaks the proofs). *)
 From Coq Require Import List NArith ZArith Bool.
 From TarsV Require Import Gen.Consts Select.Failover Select.FailoverProofs Select.FailoverInv Select.FailoverThms
-  Select.FailoverExamples Select.FailoverQueue.
+  Select.FailoverExamples Select.FailoverQueue Select.FailoverBack.
 From TarsV Require Xlate.CheckActiveEquiv.
 Import ListNotations.
 Open Scope Z_scope.
@@ -86,6 +86,16 @@ Theorem C15_late_replies_do_not_count : forall ai ls,
 Proof. exact FailoverQueue.late_replies_do_not_count. Qed.
 Print Assumptions C15_late_replies_do_not_count.
 
+(* one-way calls: the outcome of a call is what counts, whatever its packet type. A call that fails at Send is the label
+   Out _ false _ (one-way or two-way alike: fails_since and streak above count it); a one-way call handed to the transport
+   (label Sent) is booked as a success, awaits nothing and - being no answer - reinstates nothing (C15_stays_blocked
+   quantifies over histories with Sent labels too) *)
+Theorem C15_one_way_sent_effect : forall s ai p s', step s (Sent ai p) = Some s' ->
+  exists a, get ai s = Some a /\ get ai s' = Some (succ_add (now s) a) /\
+            reinst s' = reinst s /\ sel s' = sel s /\ active s' = active s /\ probeq s' = probeq s.
+Proof. exact FailoverQueue.one_way_sent_effect. Qed.
+Print Assumptions C15_one_way_sent_effect.
+
 (* registry changes while an endpoint is blocked: a refresh keeps the health record of every endpoint it lists, as
    active or as inactive; in scope a blocked endpoint is in no selector, and it stays out - record attached - through
    every history without an answered probe of it (active -> inactive -> active included) *)
@@ -147,6 +157,26 @@ Theorem C15_stays_blocked : forall ls s s' ai a, run s ls = Some s' ->
   exists a', get ai s' = Some a' /\ ast a' = false /\ memN ai (reinst s') = false.
 Proof. exact FailoverThms.stays_blocked. Qed.
 Print Assumptions C15_stays_blocked.
+
+(* clause 4c - no lock-out ("... and come back"): in scope, once the probe interval of a blocked endpoint has elapsed, a status
+   check that finds it reachable queues the probe of its adapter (whatever else is queued, whatever the dedupe set holds) ... *)
+Theorem C15_probe_requested_when_due : forall s e ai a r s', reachable s -> shrunk s = false ->
+  In e (reg s) -> lookup e (att s) = Some ai -> get ai s = Some a -> ast a = false ->
+  30 <= now s - tB a -> In e r -> step s (Check r) = Some s' ->
+  In ai (probeq s') /\ exists a', get ai s' = Some a' /\ ast a' = false.
+Proof. exact FailoverBack.probe_requested_when_due. Qed.
+Print Assumptions C15_probe_requested_when_due.
+
+(* ... and from EVERY reachable in-scope state with a blocked endpoint there is a way back that needs nothing but the
+   environment's cooperation: 30 s pass, a status check finds it reachable, selections take the queued probes (drain: only
+   SelProbe steps), its probe is answered, the reinstatement runs - and it is back in the selectors, active, counters clear *)
+Theorem C15_can_come_back : forall s e ai a, reachable s -> shrunk s = false ->
+  In e (reg s) -> lookup e (att s) = Some ai -> get ai s = Some a -> ast a = false ->
+  exists drain s', all_selprobe drain /\
+    run s ([Advance 30; Check [e]] ++ drain ++ [Out ai true true; Reinstate ai]) = Some s' /\
+    In e (sel s') /\ exists a', get ai s' = Some a' /\ ast a' = true /\ gfail a' = 0.
+Proof. exact FailoverBack.can_come_back. Qed.
+Print Assumptions C15_can_come_back.
 
 (* clause 5: with a non-empty registry list the selection never returns nil: the head of the probe queue if there is
    one, otherwise a member of the selectors, otherwise (every endpoint blocked) an endpoint of the registry list *)
